@@ -563,3 +563,98 @@ func (f *Func) OnlyAfterSuccess(call *ast.CallExpr, target *cfgx.Node) bool {
 	})
 	return !bad
 }
+
+// ReachableAfterFailure is ReachableFromEdges(fail, nil) made path-sensitive in
+// error variables: starting on the failing edges of a check (`err != nil`
+// true), the set of error variables known to be non-nil is carried along each
+// path — copied by `e2 = e1` / `a, b, e2 = x, y, e1`, wrapped by
+// `e2 = fmt.Errorf(…)` and other always-error constructors, forgotten on any
+// other assignment — and the nil side of a later test of such a variable is
+// not followed. This keeps "on failure, hand the error up through an outer
+// variable and test it there" from looking like a path back into the success
+// code.
+func (f *Func) ReachableAfterFailure(fail []*cfgx.Edge) map[*cfgx.Node]*cfgx.Visit {
+	g := f.Graph()
+	// number the error variables
+	idx := map[types.Object]uint{}
+	number := func(o types.Object) (uint, bool) {
+		if o == nil || !IsErrorType(o.Type()) {
+			return 0, false
+		}
+		if i, ok := idx[o]; ok {
+			return i, true
+		}
+		if len(idx) >= 30 {
+			return 0, false
+		}
+		idx[o] = uint(len(idx))
+		return idx[o], true
+	}
+	var start []*cfgx.Visit
+	for _, e := range fail {
+		st := cfgx.State(0)
+		if e.Cond != nil {
+			if x, nonNilOnTrue, ok := f.NilTest(e.Cond); ok && nonNilOnTrue == (e.Kind == cfgx.True) {
+				if i, ok := number(f.ObjOf(x)); ok {
+					st |= 1 << i
+				}
+			}
+		}
+		start = append(start, cfgx.StartAfter(e, st))
+	}
+	res := map[*cfgx.Node]*cfgx.Visit{}
+	vs := g.Explore(start, cfgx.Walker{
+		AtNode: func(n *cfgx.Node, st cfgx.State) (cfgx.State, bool) {
+			if n.AST == nil {
+				return st, true
+			}
+			for _, w := range f.WritesIn(n.AST, false) {
+				i, ok := number(f.ObjOf(w.LHS))
+				if !ok {
+					continue
+				}
+				nonNil := false
+				if w.RHS != nil {
+					if j, ok := number(f.ObjOf(w.RHS)); ok && f.ObjOf(w.RHS) != nil {
+						nonNil = st&(1<<j) != 0
+					} else if call, isCall := ast.Unparen(w.RHS).(*ast.CallExpr); isCall && f.P.AlwaysErr(f.Callee(call), 0) {
+						nonNil = true
+					}
+				}
+				if nonNil {
+					st |= 1 << i
+				} else {
+					st &^= 1 << i
+				}
+			}
+			return st, true
+		},
+		OnEdge: func(e *cfgx.Edge, st cfgx.State) (cfgx.State, bool) {
+			if e.Cond == nil || (e.Kind != cfgx.True && e.Kind != cfgx.False) {
+				return st, true
+			}
+			x, nonNilOnTrue, ok := f.NilTest(e.Cond)
+			if !ok {
+				return st, true
+			}
+			i, ok := number(f.ObjOf(x))
+			if !ok {
+				return st, true
+			}
+			isNilEdge := nonNilOnTrue != (e.Kind == cfgx.True)
+			if isNilEdge && st&(1<<i) != 0 {
+				return st, false
+			}
+			if !isNilEdge {
+				st |= 1 << i
+			}
+			return st, true
+		},
+	})
+	for _, v := range vs {
+		if _, ok := res[v.Node]; !ok {
+			res[v.Node] = v
+		}
+	}
+	return res
+}
